@@ -818,12 +818,18 @@ def render_c17b(cases):
 # ---- C13: contexts through the DSL front end (operator order, >= / >>= mix) ---------------------------------------
 C13_PRELUDE = r"""
 namespace cc {
-struct Ctx { std::vector<int> seen; };
+inline int& copies() { static int n = 0; return n; }
+// the caller's context: copies and moves of it are counted (a parse hands the caller's OBJECT to the functors; it never needs another one)
+struct Ctx { std::vector<int> seen; Ctx() = default; Ctx(const Ctx& o) : seen(o.seen) { ++copies(); } Ctx(Ctx&& o) : seen(std::move(o.seen)) { ++copies(); }
+             Ctx& operator=(const Ctx& o) { seen = o.seen; ++copies(); return *this; } Ctx& operator=(Ctx&& o) { seen = std::move(o.seen); ++copies(); return *this; } };
 inline int& missing() { static int m = 0; return m; }
+// a contextual functor that has no use for the context and says so with the library's placeholder type
+template<int R> struct FSK { template<class... A> uint64_t operator()(skip, A&&... a) const { return hh::F<R>{}(a...); } };
 // callable with and without a context: a rule that silently lost its 'contextual' flag is observed at run time
 template<int R> struct FC2 {
   template<class... A> uint64_t operator()(Ctx& c, A&&... a) const { c.seen.push_back(R); return hh::F<R>{}(a...); }
   template<class... A> uint64_t operator()(const Ctx& c, A&&... a) const { (void)c; return hh::F<R>{}(a...); }
+  template<class... A> uint64_t operator()(Ctx&& c, A&&... a) const { c.seen.push_back(R); return hh::F<R>{}(a...); }          // context_parse(std::move(ctx), ...): still the caller's object
   template<class... A> uint64_t operator()(no_type, A&&... a) const { return hh::F<R>{}(a...); }      // plain parse(): the context is no_type
   template<class... A> uint64_t operator()(A&&... a) const { missing()++; return hh::F<R>{}(a...); }
 };
@@ -833,6 +839,11 @@ template<int R> struct FC2 {
 
 def c13_contextual(r):
     return (r["slot"] % 2 == 1) and not r.get("default_functor")
+
+
+def c13_skipctx(r):
+    """contextual rules whose functor takes the context as `skip`"""
+    return c13_contextual(r) and r["slot"] % 3 == 0
 
 
 def render_c13(gi, case, rnd):
@@ -872,7 +883,7 @@ def render_c13(gi, case, rnd):
             txt = base + ("[%d]" % prec if prec is not None else "")
             forms.append("default")
         else:
-            f = ("cc::FC2<%d>{}" % r["slot"]) if c13_contextual(r) else ("hh::F<%d>{}" % r["slot"])
+            f = ("cc::FSK<%d>{}" % r["slot"]) if c13_skipctx(r) else ("cc::FC2<%d>{}" % r["slot"]) if c13_contextual(r) else ("hh::F<%d>{}" % r["slot"])
             op = ">>=" if c13_contextual(r) else ">="
             if prec is not None and rnd.random() < 0.5:
                 txt = "(%s %s %s)[%d]" % (base, op, f, prec)
@@ -888,9 +899,10 @@ def render_c13(gi, case, rnd):
         lit = cstr(bytes.fromhex(inp["hex"]))
         n = len(bytes.fromhex(inp["hex"]))
         opts = "parse_options{}.set_skip_whitespace(%s).set_skip_newline(%s)" % ("true" if inp["ws"] else "false", "true" if inp["nl"] else "false")
-        out.append('  { static const char lit[] = %s; cc::Ctx c; cc::missing() = 0; std::ostringstream os; auto r = p->context_parse(c, %s, string_view_buffer(std::string_view(lit, %d)), os);' % (lit, opts, n))
+        out.append('  { static const char lit[] = %s; cc::Ctx c; cc::missing() = 0; cc::copies() = 0; std::ostringstream os; auto r = p->context_parse(c, %s, string_view_buffer(std::string_view(lit, %d)), os);' % (lit, opts, n))
         out.append('    const cc::Ctx cconst; std::ostringstream os2; auto r2 = p->context_parse(cconst, %s, string_view_buffer(std::string_view(lit, %d)), os2); int missing_ctx = cc::missing(); utils::no_stream ns; auto r3 = p->parse(%s, string_view_buffer(std::string_view(lit, %d)), ns);' % (opts, n, opts, n))
-        out.append('    std::printf("CTX %s %d acc=%%d missing=%%d same=%%d seen=", r.has_value() ? 1 : 0, missing_ctx, (r.has_value() == r2.has_value() && r.has_value() == r3.has_value() && (!r.has_value() || (r.value() == r2.value() && r.value() == r3.value()))) ? 1 : 0); for (int x : c.seen) std::printf("%%d,", x); std::printf("\\n"); }' % (ns, k))
+        out.append('    cc::Ctx c4; std::ostringstream os4; auto r4 = p->context_parse(std::move(c4), %s, string_view_buffer(std::string_view(lit, %d)), os4); int cpy = cc::copies() + ((c4.seen == c.seen && r4.has_value() == r.has_value()) ? 0 : 1000);' % (opts, n))
+        out.append('    std::printf("CTX %s %d acc=%%d missing=%%d same=%%d cpy=%%d seen=", r.has_value() ? 1 : 0, missing_ctx, (r.has_value() == r2.has_value() && r.has_value() == r3.has_value() && (!r.has_value() || (r.value() == r2.value() && r.value() == r3.value()))) ? 1 : 0, cpy); for (int x : c.seen) std::printf("%%d,", x); std::printf("\\n"); }' % (ns, k))
     out.append("  delete p;")
     out.append("}")
     out.append("}")
@@ -1282,8 +1294,8 @@ def run(pid, tier, seed, work, viol_dir, known_ids=()):
             for ln in res["out"].splitlines():
                 if ln.startswith("CTX "):
                     w = ln.split()
-                    got[int(w[2])] = {"acc": int(w[3].split("=")[1]), "missing": int(w[4].split("=")[1]), "same": int(w[5].split("=")[1]), "seen": [int(x) for x in w[6].split("=")[1].split(",") if x]}
-            ctx_slots = {r["slot"] for r in case["grammar"]["rules"] if c13_contextual(r)}
+                    got[int(w[2])] = {"acc": int(w[3].split("=")[1]), "missing": int(w[4].split("=")[1]), "same": int(w[5].split("=")[1]), "cpy": int(w[6].split("=")[1]), "seen": [int(x) for x in w[7].split("=")[1].split(",") if x]}
+            ctx_slots = {r["slot"] for r in case["grammar"]["rules"] if c13_contextual(r) and not c13_skipctx(r)}
             for k, inp in enumerate(case["inputs"]):
                 evaluations += 1
                 want_seen = [sl for sl in inp.get("reduces", []) if sl in ctx_slots]
@@ -1299,6 +1311,10 @@ def run(pid, tier, seed, work, viol_dir, known_ids=()):
                     what = "contextual functors did not see the caller's context in reduction order"
                 elif not d["same"]:
                     what = "parse, context_parse(non-const&) and context_parse(const&) disagree"
+                elif d["cpy"] >= 1000:
+                    what = "context_parse(std::move(ctx), ...): the functors did not work on the caller's object for the whole parse (it was moved from, or the result differs)"
+                elif d["cpy"]:
+                    what = "the caller's context object was copied or moved %d times during the parses (a functor that takes the context as `skip` included)" % d["cpy"]
                 if what:
                     vp = os.path.join(viol_dir, "%s_%s.json" % (pid, hashlib.sha1((json.dumps(case["grammar"]) + inp["hex"] + cxx).encode()).hexdigest()[:12]))
                     json.dump({"check": pid, "kind": "program13", "compiler": cxx, "what": what, "observed": d, "expected_seen": want_seen, "input": inp, "source": open(src).read(), "gi": gi, "k": k, "forms": forms_of[gi]}, open(vp, "w"))
@@ -1419,8 +1435,8 @@ def replay(path):
         for ln in res["out"].splitlines():
             if k is not None and ln.startswith("CTX g%d %d " % (d["gi"], k)):
                 w = ln.split()
-                missing = int(w[4].split("=")[1]); same = int(w[5].split("=")[1]); seen = [int(x) for x in w[6].split("=")[1].split(",") if x]
-                ok = (not missing) and same and seen == d["expected_seen"] and int(w[3].split("=")[1]) == (1 if d["input"]["accept"] else 0)
+                missing = int(w[4].split("=")[1]); same = int(w[5].split("=")[1]); cpy = int(w[6].split("=")[1]); seen = [int(x) for x in w[7].split("=")[1].split(",") if x]
+                ok = (not missing) and same and (not cpy) and seen == d["expected_seen"] and int(w[3].split("=")[1]) == (1 if d["input"]["accept"] else 0)
                 print("REPLAY %s %s" % (d["check"], "PASS" if ok else "FAIL"))
                 return 0 if ok else 1
         print("REPLAY %s FAIL (no result)" % d["check"])
